@@ -51,7 +51,7 @@ module Nat :
 
 val nth_error : 'a1 list -> nat -> 'a1 option
 
-val rev : 'a1 list -> 'a1 list
+val rev_append : 'a1 list -> 'a1 list -> 'a1 list
 
 val concat : 'a1 list list -> 'a1 list
 
@@ -102,8 +102,6 @@ module Coq_Pos :
   val add_carry : positive -> positive -> positive
 
   val pred_double : positive -> positive
-
-  val pred_N : positive -> n
 
   type mask = Pos.mask =
   | IsNul
@@ -164,8 +162,6 @@ module Coq_Pos :
 
   val shiftl : positive -> n -> positive
 
-  val testbit : positive -> n -> bool
-
   val of_succ_nat : nat -> positive
  end
 
@@ -218,8 +214,6 @@ module N :
   val shiftl : n -> n -> n
 
   val shiftr : n -> n -> n
-
-  val testbit : n -> n -> bool
 
   val of_nat : nat -> n
  end
